@@ -71,13 +71,13 @@ theorem absOf_ins (content : Bytes → Bytes) (k v : Bytes) (idx : SMap Bytes) :
 /-- what a packer step leaves alone (no fault is armed in the histories of the refinement) -/
 def SameFrame (s' s : St) : Prop :=
   s'.index = s.index ∧ s'.recv = s.recv ∧ s'.lastFailed = s.lastFailed ∧ s'.failBlobs = s.failBlobs ∧
-  (s.failMeta = 0 → s'.failMeta = 0)
+  (s.failMeta = 0 → s'.failMeta = 0) ∧ s'.failIndex = s.failIndex
 
-theorem SameFrame.rfl' (s : St) : SameFrame s s := ⟨rfl, rfl, rfl, rfl, fun h => h⟩
+theorem SameFrame.rfl' (s : St) : SameFrame s s := ⟨rfl, rfl, rfl, rfl, fun h => h, rfl⟩
 
 theorem SameFrame.trans {a b c : St} (h1 : SameFrame a b) (h2 : SameFrame b c) : SameFrame a c :=
   ⟨h1.1.trans h2.1, h1.2.1.trans h2.2.1, h1.2.2.1.trans h2.2.2.1, h1.2.2.2.1.trans h2.2.2.2.1,
-   fun h => h1.2.2.2.2 (h2.2.2.2.2 h)⟩
+   fun h => h1.2.2.2.2.1 (h2.2.2.2.2.1 h), h1.2.2.2.2.2.trans h2.2.2.2.2.2⟩
 
 theorem jobStep_frame (s0 : St) (j : Job) : SameFrame (jobStep P goodP s0 j).1 s0 := by
   unfold jobStep
@@ -92,14 +92,14 @@ theorem jobStep_frame (s0 : St) (j : Job) : SameFrame (jobStep P goodP s0 j).1 s
       | some ls =>
         simp only
         split
-        · exact ⟨rfl, rfl, rfl, rfl, fun _ => rfl⟩
-        · exact ⟨rfl, rfl, rfl, rfl, fun h => by show s0.failMeta - 1 = 0; omega⟩
+        · exact ⟨rfl, rfl, rfl, rfl, fun _ => rfl, rfl⟩
+        · exact ⟨rfl, rfl, rfl, rfl, fun h => by show s0.failMeta - 1 = 0; omega, rfl⟩
     | record =>
       simp only
       cases j.packed with
       | none => exact SameFrame.rfl' _
       | some br => simp only; split <;> exact SameFrame.rfl' _
-    | remove => exact ⟨rfl, rfl, rfl, rfl, fun h => h⟩
+    | remove => exact ⟨rfl, rfl, rfl, rfl, fun h => h, rfl⟩
 
 theorem stepJob_frame (s : St) (i : Nat) : SameFrame (stepJob P goodP s i) s := by
   unfold stepJob
@@ -130,35 +130,62 @@ theorem inv_drain (I : Ideal P) (fuel : Nat) {s : St} (h : Inv P s) : Inv P (dra
     · exact h
     · exact ih (inv_stepJob I h 0)
 
+theorem recvStep_failIndex (s : St) (h : s.failIndex = 0) : (recvStep P goodP s).failIndex = 0 := by
+  unfold recvStep
+  split
+  · exact h
+  · split
+    · exact h
+    · split <;> exact h
+    · split <;> exact h
+    · split <;> exact h
+    · split
+      · rfl
+      · show s.failIndex - 1 = 0
+        omega
+
+theorem recvBegin_failIndex (s : St) (k v : Bytes) :
+    (recvBegin P goodR s k v).1.failIndex = s.failIndex := by
+  unfold recvBegin
+  split
+  · rfl
+  · split <;> rfl
+
 /-- what a ReceiveBlob of a ref the index does not know leaves behind (before the packers run) -/
 theorem recvRun_spec (I : Ideal P) {s : St} (h : Inv P s) (h0 : s.recv = none) (k v : Bytes)
     (hk : k = P.digest v) (hlen : v.length < 4294967296) (hnone : get s.index k = none)
-    (hfb : s.failBlobs = 0) (hfmt : s.failMeta = 0) :
+    (hfb : s.failBlobs = 0) (hfmt : s.failMeta = 0) (hfi : s.failIndex = 0) :
     ∃ s1 row, recvBegin P goodR s k v = ((recvBegin P goodR s k v).1, none) ∧
       recvRun P goodP false 5 (recvBegin P goodR s k v).1 = s1 ∧
       Inv P s1 ∧ s1.recv = none ∧ s1.index = ins k row s.index ∧
-      s1.failBlobs = 0 ∧ s1.failMeta = 0 ∧ s1.lastFailed = false := by
+      s1.failBlobs = 0 ∧ s1.failMeta = 0 ∧ s1.lastFailed = false ∧ s1.failIndex = 0 := by
   subst hk
   have hfm : fetchMeta P s.index (P.digest v) = .notExist := by simp [fetchMeta, hnone]
   have hb : recvBegin P goodR s (P.digest v) v = ((recvBegin P goodR s (P.digest v) v).1, none) := by
     simp [recvBegin, hfm]
   have i0 := inv_recvBegin I h _ v h0 hlen hb
-  have i1 := inv_recvStep I i0
-  have i2 := inv_recvStep I i1
-  have i3 := inv_recvStep I i2
-  have i4 := inv_recvStep I i3
-  have i5 := inv_recvStep I i4
-  refine ⟨_, packIndexEntry v.length (P.digest (encryptBlob P s.nonce v)), hb, rfl, ?_, ?_, ?_, ?_, ?_, ?_⟩
+  have g0 : (recvBegin P goodR s (P.digest v) v).1.failIndex = 0 := by simp [recvBegin, hfm, hfi]
+  have g1 := recvStep_failIndex (P := P) _ g0
+  have g2 := recvStep_failIndex (P := P) _ g1
+  have g3 := recvStep_failIndex (P := P) _ g2
+  have g4 := recvStep_failIndex (P := P) _ g3
+  have i1 := inv_recvStep I i0 g0
+  have i2 := inv_recvStep I i1 g1
+  have i3 := inv_recvStep I i2 g2
+  have i4 := inv_recvStep I i3 g3
+  have i5 := inv_recvStep I i4 g4
+  refine ⟨_, packIndexEntry v.length (P.digest (encryptBlob P s.nonce v)), hb, rfl, ?_, ?_, ?_, ?_, ?_, ?_, ?_⟩
   · have e : recvRun P goodP false 5 (recvBegin P goodR s (P.digest v) v).1 =
         recvStep P goodP (recvStep P goodP (recvStep P goodP (recvStep P goodP (recvStep P goodP
           (recvBegin P goodR s (P.digest v) v).1)))) := by
-      simp [recvBegin, hfm, recvRun, recvStep, goodR, St.record, hfb, hfmt]
+      simp [recvBegin, hfm, recvRun, recvStep, goodR, St.record, hfb, hfmt, hfi]
     rw [e]; exact i5
-  · simp [recvBegin, hfm, recvRun, recvStep, goodR, St.record, hfb, hfmt]
-  · simp [recvBegin, hfm, recvRun, recvStep, goodR, St.record, hfb, hfmt]
-  · simp [recvBegin, hfm, recvRun, recvStep, goodR, St.record, hfb, hfmt]
-  · simp [recvBegin, hfm, recvRun, recvStep, goodR, St.record, hfb, hfmt]
-  · simp [recvBegin, hfm, recvRun, recvStep, goodR, St.record, hfb, hfmt]
+  · simp [recvBegin, hfm, recvRun, recvStep, goodR, St.record, hfb, hfmt, hfi]
+  · simp [recvBegin, hfm, recvRun, recvStep, goodR, St.record, hfb, hfmt, hfi]
+  · simp [recvBegin, hfm, recvRun, recvStep, goodR, St.record, hfb, hfmt, hfi]
+  · simp [recvBegin, hfm, recvRun, recvStep, goodR, St.record, hfb, hfmt, hfi]
+  · simp [recvBegin, hfm, recvRun, recvStep, goodR, St.record, hfb, hfmt, hfi]
+  · simp [recvBegin, hfm, recvRun, recvStep, goodR, St.record, hfb, hfmt, hfi]
 
 /-! ## enumerate -/
 
@@ -209,7 +236,7 @@ structure Sim (P : Params) (content : Bytes → Bytes) (s : St) : Prop where
   inv : Inv P s
   quiet : s.recv = none
   keys : ∀ k v, get s.index k = some v → k = P.digest (content k) ∧ (content k).length < 4294967296
-  nofault : s.failBlobs = 0 ∧ s.failMeta = 0
+  nofault : s.failBlobs = 0 ∧ s.failMeta = 0 ∧ s.failIndex = 0
 
 theorem Sim.row (I : Ideal P) {content : Bytes → Bytes} {s : St} (h : Sim P content s) {k v : Bytes}
     (hg : get s.index k = some v) :
@@ -276,8 +303,8 @@ theorem sim_step (I : Ideal P) (content : Bytes → Bytes) {s : St} (h : Sim P c
       simp only [toOut, hhas, if_true]
       exact ⟨trivial, trivial, h⟩
     | none =>
-      obtain ⟨s1, row, hb, hrun, i1, q1, x1, f1, f2, f3⟩ :=
-        recvRun_spec I h.inv h.quiet k (content k) hk hlen hg h.nofault.1 h.nofault.2
+      obtain ⟨s1, row, hb, hrun, i1, q1, x1, f1, f2, f3, f4⟩ :=
+        recvRun_spec I h.inv h.quiet k (content k) hk hlen hg h.nofault.1 h.nofault.2.1 h.nofault.2.2
       have hhas : has (absOf content s.index) k = false := by simp [has, get_absOf, hg]
       subst hrun
       have hrb : receiveBlob P goodR goodP false s k (content k) =
@@ -291,10 +318,10 @@ theorem sim_step (I : Ideal P) (content : Bytes → Bytes) {s : St} (h : Sim P c
           else Res.sized (content k).length) = _
         simp only [f3, Bool.false_eq_true, if_false]
       rw [hrb]
-      obtain ⟨d1, d2, _, d4, d5⟩ := drain_frame (P := P)
+      obtain ⟨d1, d2, _, d4, d5, d6⟩ := drain_frame (P := P)
         (drainFuel (recvRun P goodP false 5 (recvBegin P goodR s k (content k)).1)) (recvRun P goodP false 5 (recvBegin P goodR s k (content k)).1)
       simp only [toOut, hhas, Bool.false_eq_true, if_false, d1, x1, absOf_ins]
-      refine ⟨trivial, trivial, inv_drain I _ i1, d2.trans q1, ?_, d4.trans f1, d5 f2⟩
+      refine ⟨trivial, trivial, inv_drain I _ i1, d2.trans q1, ?_, d4.trans f1, d5 f2, d6.trans f4⟩
       intro k' v' hg'
       rw [d1, x1, get_ins] at hg'
       by_cases hkk : k' = k
@@ -316,7 +343,7 @@ theorem refines_refmap (I : Ideal P) (content : Bytes → Bytes) (ops : List Ref
     rw [ih (fun o ho' => hops o (by simp [ho'])) _ hs, ha]
 
 theorem sim_init (content : Bytes → Bytes) : Sim P content ({} : St) :=
-  ⟨inv_init, rfl, by intro k v hg; simp [SMap.get] at hg, rfl, rfl⟩
+  ⟨inv_init, rfl, by intro k v hg; simp [SMap.get] at hg, rfl, rfl, rfl⟩
 
 end Pk.Encrypt
 
@@ -357,7 +384,7 @@ theorem ack_step {s s' : St} (h : Inv P s) (ha : AckOK s) (st : Step P goodR goo
         injection hx with hx
         subst hx
         simp [goodR] at hr
-  | recvStep hne =>
+  | recvStep hne hfi =>
     unfold recvStep
     cases hx : s.recv with
     | none => rw [hx] at hne; exact absurd rfl hne
@@ -380,7 +407,7 @@ theorem ack_step {s s' : St} (h : Inv P s) (ha : AckOK s) (st : Step P goodR goo
         injection hy' with hy'
         subst hy'
         simp at hr'
-      · simp only [hr]
+      · simp only [hr, hfi, Nat.zero_ne_one, if_false]
         intro y hy _ _
         injection hy with hy
         subst hy
@@ -388,7 +415,7 @@ theorem ack_step {s s' : St} (h : Inv P s) (ha : AckOK s) (st : Step P goodR goo
         show get (ins x.plainBR (packIndexEntry x.size x.encBR) s.index) x.plainBR = some _
         rw [get_ins]; simp
   | jobStep i =>
-    obtain ⟨f1, f2, f3, _, _⟩ := stepJob_frame (P := P) s i
+    obtain ⟨f1, f2, f3, _, _, _⟩ := stepJob_frame (P := P) s i
     intro x hx hr hl
     rw [f2] at hx; rw [f3] at hl; rw [f1]
     exact ha x hx hr hl
